@@ -115,17 +115,30 @@ def _check_realisation_one(case, r: R):
         return
     A, B = np.asarray(ssm.A, dtype=float), np.asarray(ssm.B, dtype=float)
     I = np.eye(n)
+    # The model's matrices come out of one float inversion of the resistive skeleton (storage elements replaced by
+    # sources): their entries carry an absolute rounding error of about eps * cond(skeleton) * (largest gain of the
+    # model), also at frequencies where the exact response is orders of magnitude below that largest gain. Responses
+    # are therefore judged relative to max(scale at this frequency, kfloor * peak scale over the sweep).
+    kappa = rs.nodal_cond(dy.substituted(spec, 'vsrc', 'isrc'))
+    kfloor = 1e-9 * max(kappa, 1e3)
+    peaks = {}
     for sid in src_ids:
         k = sources.index(sid)
+        solved = []
         for w in sweep(spec):
             net = dy.phasor_network(spec, w, sid)
             sol = rs.solve(net)
             if sol is None:
                 continue
+            solved.append((w, net, sol) + tol.scales(net, sol))
+        peaks[sid] = max([x[3] for x in solved] + [0.0])
+        for w, net, sol, S_phi, S_I in solved:
             if np.linalg.cond(1j * w * I - A_ref) > tol.KAPPA_MAX or not rs.well_conditioned(net, tol.KAPPA_MAX):
                 r.cls('frequency-skipped-ill-conditioned')
                 continue
-            S_phi, S_I = tol.scales(net, sol)
+            if S_phi < kfloor * peaks[sid]:
+                r.cls('response-far-below-peak')
+                S_phi = kfloor * peaks[sid]
             S_I = current_floor(spec, S_phi, S_I)
             try:
                 G = np.linalg.solve(1j * w * I - A, B[:, k])
@@ -151,6 +164,7 @@ def _check_realisation_one(case, r: R):
     if dc is not None and rs.well_conditioned(dcnet, tol.KAPPA_MAX) and np.linalg.cond(A_ref) < tol.KAPPA_MAX:
         u = np.array([next(c['args'].get('V', c['args'].get('I')) for c in vsrc + isrc if c['id'] == s) for s in sources], dtype=float)
         S_phi, S_I = tol.scales(dcnet, dc)
+        S_phi = max(S_phi, kfloor * sum(peaks[s_] * abs(u_) for s_, u_ in zip(sources, u)))
         S_I = current_floor(spec, S_phi, S_I)
         try:
             x = np.linalg.solve(-A, B @ u)
